@@ -282,6 +282,9 @@ operator/ (mpz_class v1, mpz_class v2)
   if (v2.m_u == 0)
     int_error (describe_div_0 (v1, v2, '/'));
 
+  mpz_class const o1 = v1;
+  mpz_class const o2 = v2;
+
   bool neg = false;
   if (v1 < 0)
     {
@@ -294,14 +297,20 @@ operator/ (mpz_class v1, mpz_class v2)
       neg = ! neg;
     }
 
-  if (neg)
-    v1 = v1 + (v2 - 1);
+  // Divide the magnitudes and round towards negative infinity afterwards.
+  // Adding V2-1 to V1 up front would overflow for large magnitudes even
+  // though the quotient itself is representable.
+  uint64_t q = v1.m_u / v2.m_u;
+  if (neg && v1.m_u % v2.m_u != 0)
+    // V2 > 1 here, hence Q <= UINT64_MAX / 2 and this can't wrap.
+    ++q;
 
-  mpz_class ret {v1.m_u / v2.m_u, signedness::unsign};
-  if (neg)
-    ret = -ret;
+  if (! neg)
+    return mpz_class {q, signedness::unsign};
 
-  return ret;
+  if (q > (uint64_t) INT64_MAX + 1)
+    int_error (describe_overflow (o1, o2, '/'));
+  return mpz_class {-q, signedness::sign};
 }
 
 mpz_class
@@ -310,6 +319,19 @@ operator% (mpz_class v1, mpz_class v2)
   if (v2.m_u == 0)
     int_error (describe_div_0 (v1, v2, '%'));
 
-  mpz_class d = v1 / v2;
-  return v1 - v2 * d;
+  // The result has the sign of the divisor and a magnitude smaller than
+  // that of the divisor, so it is always representable.  Computing it as
+  // V1 - V2 * (V1 / V2) would overflow in the intermediate product.
+  bool neg1 = v1 < 0;
+  bool neg2 = v2 < 0;
+  uint64_t a = neg1 ? (-v1).m_u : v1.m_u;
+  uint64_t b = neg2 ? (-v2).m_u : v2.m_u;
+
+  uint64_t r = a % b;
+  if (r != 0 && neg1 != neg2)
+    r = b - r;
+
+  if (neg2)
+    return mpz_class {-r, signedness::sign};
+  return mpz_class {r, signedness::unsign};
 }
